@@ -68,7 +68,7 @@ func propC18(p *Prog, r *Report) {
 	for _, fld := range fi.Decl.Type.Params.List {
 		for _, nm := range fld.Names {
 			o := info.Defs[nm]
-			if _, isSl := o.Type().(*types.Slice); isSl {
+			if _, isSl := o.Type().Underlying().(*types.Slice); isSl {
 				arrObj = o
 			} else {
 				seqObj = o
@@ -424,8 +424,14 @@ func c18Tail(p *Prog, r *Report, fi *FuncInfo) {
 				return nil, false
 			}
 			if _, exit, err := fin.WalkPath(env); err == nil {
-				if rs := fin.returnStmt(exit); rs != nil && len(rs.Results) == 1 && isZeroValueExpr(linfo, lb, rs.Results[0]) {
-					nilSafe = true
+				if rs := fin.returnStmt(exit); rs != nil && len(rs.Results) == 1 {
+					if isZeroValueExpr(linfo, lb, rs.Results[0]) {
+						nilSafe = true
+					} else if v, verr := env.Eval(rs.Results[0]); verr == nil && v != nil && v.Fields != nil && len(v.Fields) == 0 && v.Complete {
+						// a local that holds the zero version on this path (v, _ := ix.lastBefore(seq) with the helper
+						// answering model.File{}, false)
+						nilSafe = true
+					}
 				}
 			} else if os.Getenv("FSDBCHECK_DEBUG") != "" {
 				fmt.Fprintln(os.Stderr, "C18.c nil-search evaluation:", err)
@@ -711,7 +717,7 @@ func c18AdapterMaps(p *Prog, root *FuncInfo) bool {
 	var arrObj types.Object
 	for _, o := range paramObjs(ad) {
 		if o != nil {
-			if _, isSl := o.Type().(*types.Slice); isSl {
+			if _, isSl := o.Type().Underlying().(*types.Slice); isSl {
 				arrObj = o
 			}
 		}
